@@ -37,6 +37,9 @@ def family_case(ctx_seed, fam):
     if sem.modal and sem.classical and rng.random() < 0.10:
         # identity statements and predications spread over several worlds
         prems, conc = proofwl.identity_modal_template(rng)
+    elif sem.modal and sem.quantified and rng.random() < 0.12:
+        # one universal sentence at several sibling worlds, not all of which mention a constant
+        prems, conc = proofwl.boxed_universal_template(rng)
     elif sem.modal and rng.random() < 0.16:
         # premise order and multiplicity matter most where several modal premises feed one world
         prems, conc = proofwl.modal_interplay_template(rng)
